@@ -41,7 +41,7 @@ def nelem(t):
     return (t["nr"] - 1) * t["nt"] * (t["nz"] - 1)
 
 
-def gen_tube(rng, ntime, dim=None, mult=1, level=150.0, compressive=False, uniaxial=None, special=None):
+def gen_tube(rng, ntime, dim=None, mult=1, level=150.0, compressive=False, uniaxial=None, special=None, vary=False):
     dim = dim or rng.choice([1, 2, 3])
     t = {"r": 10.0, "t": 1.0, "h": rng.choice([10.0, 25.0]), "nr": rng.randint(2, 3), "nt": rng.randint(3, 4), "nz": rng.randint(2, 3),
          "mult": mult, "dim": dim}
@@ -71,7 +71,26 @@ def gen_tube(rng, ntime, dim=None, mult=1, level=150.0, compressive=False, uniax
                 S[ti, e, q] = base * f
     t["S"] = S
     t["T"] = np.full((ntime, ne, nq), rng.choice([900.0, 1100.0]))
+    if vary:
+        # the temperature changes over the load cycle (across a knot of the material tables)
+        hist = rng.choice([[600.0, 2400.0, 1200.0], [1800.0, 700.0, 700.0], [900.0, 1300.0, 2900.0]])
+        for ti in range(ntime):
+            t["T"][ti] = hist[ti % 3]
     return t
+
+
+def tab_at(tab, key, T):
+    return np.interp(T, [uv(x) for x in tab["T"]], [uv(x) for x in tab[key]])
+
+
+def avg_params(mat, tube):
+    """time-averaged Weibull parameters of a tube's (element-uniform) temperature history: (mean of s0^-m, mean of m)"""
+    Ts = tube["T"][:, 0, 0]
+    if mat.get("tab"):
+        s0, mm = tab_at(mat["tab"], "s0", Ts), tab_at(mat["tab"], "m", Ts)
+    else:
+        s0, mm = np.full(len(Ts), uv(mat["s0"])), np.full(len(Ts), uv(mat["m"]))
+    return float(np.mean(s0 ** (-mm))), float(np.mean(mm))
 
 
 def to_impl_tube(t):
@@ -82,12 +101,20 @@ def to_impl_tube(t):
 
 
 def to_impl(c):
-    return {"id": c["id"], "material": c["material"], "period": hx(c["times"][-1] if c["times"][-1] > 0 else 1.0),
+    return ({"panel_names": c["panel_names"]} if c.get("panel_names") else {}) | {"id": c["id"], "material": c["material"], "period": hx(c["times"][-1] if c["times"][-1] > 0 else 1.0),
             "times": [hx(t) for t in c["times"]], "time": hx(c["time"]), "models": c["models"],
             "panels": [[to_impl_tube(t) for t in p] for p in c["panels"]]}
 
 
-def custom_material(rng):
+def custom_material(rng, tab=False):
+    m = constant_material(rng)
+    if tab:
+        s0, mm = uv(m["s0"]), uv(m["m"])
+        m["tab"] = {"T": [hx(0.0), hx(1000.0), hx(3000.0)], "s0": [hx(s0), hx(s0), hx(0.75 * s0)], "m": [hx(mm), hx(mm), hx(mm + 6.0)]}
+    return m
+
+
+def constant_material(rng):
     return {"kind": "custom", "s0": hx(rng.choice([400.0, 550.0])), "m": hx(rng.choice([7.0, 8.0, 10.5])), "c_bar": hx(rng.choice([0.82, 1.5])),
             "nu": hx(rng.choice([0.16, 0.219])), "Nv": hx(rng.choice([20.0, 30.0])), "Bv": hx(rng.choice([300.0, 1000.0]))}
 
@@ -127,10 +154,14 @@ def run(ctx):
         times = [0.0] + [float(k + 1) for k in range(ntime - 1)]
         counts = [[2, 2], [2], [3, 1], [1, 1], [2, 2, 2], [1], [1, 2, 3], [3, 3]][i % 8]       # tubes per panel
         special = [None, None, "equibiaxial", None, "hydrostatic", "biaxial-compression", "uniaxial-x"][i % 7]
-        panels = [[gen_tube(rng, ntime, mult=rng.randint(1, 3), special=special, level=rng.choice([120.0, 150.0, 180.0]))
+        vary = i % 3 == 2
+        panels = [[gen_tube(rng, ntime, mult=rng.randint(1, 3), special=special, level=rng.choice([120.0, 150.0, 180.0]), vary=vary)
                    for _ in range(ntub)] for ntub in counts]
-        mat = custom_material(rng) if i % 3 else {"kind": "shipped", "variant": rng.choice(["base", "cares"])}
+        mat = custom_material(rng, tab=vary) if i % 3 else {"kind": "shipped", "variant": rng.choice(["base", "cares"])}
         base = {"material": mat, "times": times, "time": rng.choice([0.0, 100.0, 1.0e4]), "models": MODELS, "panels": panels}
+        if i % 4 in (2, 3):
+            # panels named by the user, added in an order that is not the sorted one
+            base["panel_names"] = [["north", "east", "west"], ["p2", "p10", "p1"], ["b", "a", "c"]][(i // 2) % 3][:len(counts)]
         b = add(base)
         R = rat_rotation(rng)
         jobs.append(("rotation", b, add(transform(base, lambda S: np.einsum("ik,...kl,jl->...ij", R, S, R)))))
@@ -146,13 +177,19 @@ def run(ctx):
         zb = add(z)
         jobs.append(("homogeneous", zb, add(transform(z, lambda S: 1.25 * S))))
     for i in range(ctx.budget(3, 12)):
-        times = [0.0, 1.0] if i % 2 else [0.0]
-        mat = custom_material(rng)
+        times = [[0.0], [0.0, 1.0], [0.0, 1.0, 2.0]][i % 3]
+        vary = i % 3 > 0
+        mat = custom_material(rng, tab=vary)
         comp = {"material": mat, "times": times, "time": rng.choice([0.0, 1000.0]), "models": MODELS,
                 "panels": [[gen_tube(rng, len(times), compressive=True)]]}
         jobs.append(("compressive", add(comp), None))
         sig = rng.choice([150.0, 250.0])
-        uni = {"material": mat, "times": times, "time": 0.0, "models": MODELS, "panels": [[gen_tube(rng, len(times), uniaxial=sig)]], "sigma": sig}
+        tube = gen_tube(rng, len(times), uniaxial=sig, vary=vary)
+        kavg, mavg = avg_params(mat, tube)
+        while 4000.0 * kavg * sig ** mavg > 300.0:      # keep the reliabilities representable (volumes are below 4000)
+            sig /= 2.0
+            tube["S"] = tube["S"] / 2.0
+        uni = {"material": mat, "times": times, "time": 0.0, "models": MODELS, "panels": [[tube]], "sigma": sig}
         jobs.append(("uniaxial", add(uni), None))
     results = run_impl_parallel("c05_weibull", [to_impl(c) for c in cases], workers=10, timeout=1500)
     findings = []
@@ -206,9 +243,11 @@ def run(ctx):
             if kind == "uniaxial":
                 V = np.array(results[a]["volumes"]).ravel()
                 mat = cases[a]["material"]
-                expect = -V * (cases[a]["sigma"] / uv(mat["s0"])) ** uv(mat["m"])
+                # Weibull parameters averaged over the cycle's temperatures (constant temperature: -V (sigma/s0)^m)
+                kavg, mavg = avg_params(mat, cases[a]["panels"][0][0])
+                expect = -V * kavg * cases[a]["sigma"] ** mavg
                 # the 121 x 121 Riemann sums of the orientation integrals are off by 1-6 % (growing with the modulus)
-                tol = 1e-6 if m in ("PIA", "WNTSA") else 0.015 + 0.002 * uv(mat["m"])
+                tol = 1e-6 if m in ("PIA", "WNTSA") else 0.015 + 0.002 * mavg
                 if not np.allclose(la, expect, rtol=tol):
                     findings.append((cases[a], "%s: uniaxial tension gives log-reliability %s, the uniaxial Weibull law %s" % (m, la, expect)))
                 continue
@@ -219,14 +258,14 @@ def run(ctx):
                 findings.append((cases[b], "%s: the same stress history in rotated axes changes the tube reliabilities from %s to %s" % (m, ra["tube"], rb["tube"])))
             elif kind in ("scale", "time") and np.any(lb > la * (1 - 1e-9) + 1e-15):
                 findings.append((cases[b], "%s: %s increases a reliability (%s -> %s)" % (m, "scaling the stresses up" if kind == "scale" else "a longer service time", ra["tube"], rb["tube"])))
-            elif kind == "volume" and not np.allclose(lb, 2 * la, rtol=1e-9, atol=1e-300):
+            elif kind == "volume" and not np.allclose(lb, 2 * la, rtol=1e-9, atol=1e-15):     # a reliability near 1 carries its logarithm to about 1e-16 only
                 findings.append((cases[b], "%s: doubling every element volume does not double the log-reliability (%s -> %s)" % (m, la, lb)))
             elif kind == "homogeneous":
                 mm = cases[a]["material"]
                 if mm["kind"] == "custom":
-                    fac = 1.25 ** uv(mm["m"])
-                    if not np.allclose(lb, fac * la, rtol=1e-6, atol=1e-300):
-                        findings.append((cases[b], "%s: at zero service time scaling stresses by 1.25 multiplies log-reliability by %s, expected %.6g"
+                    fac = np.array([1.25 ** avg_params(mm, t)[1] for p in cases[a]["panels"] for t in p])
+                    if not np.allclose(lb, fac * la, rtol=1e-6, atol=1e-15):
+                        findings.append((cases[b], "%s: at zero service time scaling stresses by 1.25 multiplies log-reliability by %s, expected %s"
                                          % (m, lb / la, fac)))
     ctx.sample({"models": MODELS, "pairs": sorted(set(j[0] for j in jobs))})
     ctx.oblige("validated/metamorphic-reliability (%d receivers x 8 models)" % len(cases), "validated", not findings, "%d failing checks" % len(findings))
